@@ -108,8 +108,24 @@ func c15Gen(t *rapid.T) c15Case {
 	} else {
 		c.Name = c15GenName(t)
 	}
+	twin := rapid.IntRange(0, 5).Draw(t, "twin") == 0
+	if twin {
+		// two names that differ in ONE non-letter token character, the two characters being as
+		// close as characters get (one bit apart, neighbours in the table)
+		pair := rapid.SampledFrom([][2]string{{"~", "^"}, {"^", "~"}, {"_", "-"}, {"`", "'"}, {"|", "!"}, {"+", "*"}, {"1", "!"}, {"0", "o"}, {".", "-"}, {"#", "$"}}).Draw(t, "twinpair")
+		pos := rapid.SampledFrom([]string{"end", "mid"}).Draw(t, "twinpos")
+		base := c.Name
+		if pos == "mid" && len(base) > 3 {
+			k := len(base) - 2
+			c.Name, c.OName = base[:k]+pair[0]+base[k:], base[:k]+pair[1]+base[k:]
+		} else {
+			c.Name, c.OName = base+pair[0]+"1", base+pair[1]+"1"
+		}
+	}
 	c.Dec = c15Decorate(t, c.Name)
-	if rapid.Bool().Draw(t, "same") {
+	if twin {
+		// keep the twin
+	} else if rapid.Bool().Draw(t, "same") {
 		c.OName = c.Name
 	} else {
 		c.OName = c15GenName(t)
